@@ -1033,17 +1033,29 @@ Print Assumptions c10_format_keys_without_rows_roundtrip.
    The model is that of the tree AFTER the repairs 0b0f2ab (the record's own raw Character / String array
    views), 0ba8d0b (an empty allele string is `.`), a1ba5e6 (a GT series without values: the missing
    value for every sample, in both readers), e4c926c (INFO Character: one character of any encoded
-   length) and a82186d (Samples::series yields exactly n_fmt series). *)
+   length), a82186d (Samples::series yields exactly n_fmt series) and 30014e8 (try_from_variant_record
+   returns InvalidData when the record has more samples than the header names, after Record::samples()
+   and before it collects anything): lazy_read_hdr takes the header's sample count hs; lazy_read is the
+   same conversion without that check (lazy_read_hdr either equals it or is an error). *)
 From NV Require Import Bcf.Lazy Bcf.LazyProofs Bcf.LazySiteProofs Bcf.LazyInfoProofs Bcf.LazyFmtProofs
   Bcf.LazyColProofs Bcf.LazyEagerProofs Bcf.LazyConverse Bcf.LazyClasses Bcf.NeverPanics.
 From NV Require Import Bcf.Ints Bcf.Typed Bcf.Strings Bcf.Genotype Bcf.StringMap Bcf.Record Bcf.RecordTyped.
 
-(* (a) TOTALITY: for every byte string, every dictionary, every header typing of the keys and either
-   file format, the lazy path returns a RecordBuf or an error -- never a panic *)
-Theorem c10_lazy_never_panics : forall v44 strings contigs ik fk bs,
-  lazy_read v44 strings contigs ik fk bs <> RPanic.
-Proof. exact lazy_read_never_panics. Qed.
+(* (a) TOTALITY: for every byte string, every dictionary, every header typing of the keys, either file
+   format and every sample count of the header (and without the sample-count check), the lazy path
+   returns a RecordBuf or an error -- never a panic *)
+Theorem c10_lazy_never_panics :
+  (forall v44 strings contigs ik fk hs bs, lazy_read_hdr v44 strings contigs ik fk hs bs <> RPanic) /\
+  (forall v44 strings contigs ik fk bs, lazy_read v44 strings contigs ik fk bs <> RPanic).
+Proof. exact (conj lazy_read_hdr_never_panics lazy_read_never_panics). Qed.
 Print Assumptions c10_lazy_never_panics.
+
+(* the header's sample names are used for one thing: the check rejects, or changes nothing *)
+Theorem c10_lazy_header_check : forall v44 strings contigs ik fk hs bs,
+  lazy_read_hdr v44 strings contigs ik fk hs bs = lazy_read v44 strings contigs ik fk bs \/
+  lazy_read_hdr v44 strings contigs ik fk hs bs = RErr.
+Proof. exact lazy_read_hdr_or. Qed.
+Print Assumptions c10_lazy_header_check.
 
 (* what makes it so: the descriptor reader depends on the bytes it consumes only ... *)
 Theorem c10_lazy_read_type_local : forall bs c l r, read_type bs = Some (c, l, r) ->
@@ -1093,8 +1105,8 @@ Theorem c10_lazy_eq_eager : forall v44 strings contigs ik fk hs bs t,
   byte_list bs ->
   dec_record_typed strings contigs ik fk hs bs = ROk t ->
   lazy_agree strings contigs ik fk hs bs = true ->
-  exists t', lazy_read v44 strings contigs ik fk bs = ROk t' /\ trec_norm v44 t' = trec_norm v44 t.
-Proof. exact lazy_eq_eager. Qed.
+  exists t', lazy_read_hdr v44 strings contigs ik fk hs bs = ROk t' /\ trec_norm v44 t' = trec_norm v44 t.
+Proof. exact lazy_hdr_eq_eager. Qed.
 Print Assumptions c10_lazy_eq_eager.
 
 (* lazy_agree, spelled out *)
@@ -1132,7 +1144,7 @@ Theorem c10_lazy_eq_eager_without_characters : forall v44 strings contigs ik fk 
   (forall k, ik k <> Some (KChar true)) /\ (forall k b, fk k <> Some (FChar b)) ->
   byte_list bs ->
   dec_record_typed strings contigs ik fk hs bs = ROk t ->
-  exists t', lazy_read v44 strings contigs ik fk bs = ROk t' /\ trec_norm v44 t' = trec_norm v44 t.
+  exists t', lazy_read_hdr v44 strings contigs ik fk hs bs = ROk t' /\ trec_norm v44 t' = trec_norm v44 t.
 Proof. exact lazy_eq_eager_without_characters. Qed.
 Print Assumptions c10_lazy_eq_eager_without_characters.
 
@@ -1140,7 +1152,7 @@ Print Assumptions c10_lazy_eq_eager_without_characters.
    eager reader rejects (the other direction holds outside lazy_only: c10_lazy_converse) *)
 Theorem c10_lazy_rejects_eager_rejects : forall v44 strings contigs ik fk hs bs,
   byte_list bs -> lazy_agree strings contigs ik fk hs bs = true ->
-  lazy_read v44 strings contigs ik fk bs = RErr ->
+  lazy_read_hdr v44 strings contigs ik fk hs bs = RErr ->
   dec_record_typed strings contigs ik fk hs bs = RErr.
 Proof. exact lazy_rejects_eager_rejects. Qed.
 Print Assumptions c10_lazy_rejects_eager_rejects.
@@ -1207,9 +1219,9 @@ Print Assumptions c10_lazy_utf8_split.
 (* lazy-empty-allele: REF / ALT = the typed string of length 0 is `.` *)
 Theorem c10_lazy_empty_allele_agrees :
   (agrees true KFlag (FInt true) 0 w_empty_ref /\
-   match lazy true KFlag (FInt true) w_empty_ref with ROk t => h_ref (t_head t) = [dot] | _ => False end) /\
+   match lazy true KFlag (FInt true) 0 w_empty_ref with ROk t => h_ref (t_head t) = [dot] | _ => False end) /\
   (agrees true KFlag (FInt true) 0 w_empty_alt /\
-   match lazy true KFlag (FInt true) w_empty_alt with ROk t => h_alts (t_head t) = [[dot]] | _ => False end).
+   match lazy true KFlag (FInt true) 0 w_empty_alt with ROk t => h_alts (t_head t) = [[dot]] | _ => False end).
 Proof. exact (conj lazy_empty_ref_agrees lazy_empty_alt_agrees). Qed.
 Print Assumptions c10_lazy_empty_allele_agrees.
 
@@ -1217,7 +1229,7 @@ Print Assumptions c10_lazy_empty_allele_agrees.
 Theorem c10_lazy_samples_trailing_bytes_agrees :
   agrees true KFlag (FInt true) 0 w_trailing /\
   (agrees true KFlag (FInt true) 1 w_trailing_series /\
-   match lazy true KFlag (FInt true) w_trailing_series with
+   match lazy true KFlag (FInt true) 1 w_trailing_series with
    | ROk t => t_keys t = [nY] /\ t_rows t = [[CI (Some 5)]]
    | _ => False
    end).
@@ -1228,7 +1240,7 @@ Print Assumptions c10_lazy_samples_trailing_bytes_agrees.
    and the series after it stay aligned (the eager reader used to return the rows [., 5] and [6]) *)
 Theorem c10_lazy_gt_zero_length_agrees :
   (agrees true KFlag (FInt true) 1 w_gt_zero /\
-   match lazy true KFlag (FInt true) w_gt_zero with ROk t => t_rows t = [[CG None]] | _ => False end) /\
+   match lazy true KFlag (FInt true) 1 w_gt_zero with ROk t => t_rows t = [[CG None]] | _ => False end) /\
   (agrees true KFlag (FInt true) 2 w_gt_zero_rows /\
    match eager KFlag (FInt true) 2 w_gt_zero_rows with
    | ROk t => t_rows t = [[CG None; CI (Some 5)]; [CG None; CI (Some 6)]]
@@ -1241,19 +1253,19 @@ Print Assumptions c10_lazy_gt_zero_length_agrees.
    [a, b]), lazy-string-array-empty (the empty per-sample text is [""], the text "." the missing value) *)
 Theorem c10_lazy_string_arrays_agree :
   (agrees true (KStr true) (FInt true) 0 w_percent /\
-   match lazy true (KStr true) (FInt true) w_percent with
+   match lazy true (KStr true) (FInt true) 0 w_percent with
    | ROk t => t_info t = [(nX, IS (SStrs [Some [37; 52; 49]; Some [98]]))]%N
    | _ => False
    end) /\
   (agrees true (KChar true) (FInt true) 0 w_chars /\
-   match lazy true (KChar true) (FInt true) w_chars with
+   match lazy true (KChar true) (FInt true) 0 w_chars with
    | ROk t => t_info t = [(nX, IS (SChars [Some 97; Some 98]))]%N
    | _ => False
    end) /\
   (agrees true KFlag (FStr false) 1 w_empty_cell /\
-   match lazy true KFlag (FStr false) w_empty_cell with ROk t => t_rows t = [[CSV (Some [Some []])]] | _ => False end) /\
+   match lazy true KFlag (FStr false) 1 w_empty_cell with ROk t => t_rows t = [[CSV (Some [Some []])]] | _ => False end) /\
   (agrees true KFlag (FStr false) 1 w_dot_cell /\
-   lazy true KFlag (FStr false) w_dot_cell = eager KFlag (FStr false) 1 w_dot_cell).
+   lazy true KFlag (FStr false) 1 w_dot_cell = eager KFlag (FStr false) 1 w_dot_cell).
 Proof.
   exact (conj lazy_percent_escape_agrees (conj lazy_char_piece_agrees
         (conj lazy_string_array_empty_agrees lazy_string_array_dot_agrees))).
@@ -1264,7 +1276,7 @@ Print Assumptions c10_lazy_string_arrays_agree.
    (U+00E9).  That the real read_record_buf returns it too is checked on the implementation (corpus
    case, oracle); the eager MODEL rejects it -- a Character of NV.Bcf.Strings is one byte *)
 Theorem c10_lazy_info_character_multibyte_read :
-  match lazy true (KChar false) (FInt true) w_multibyte with
+  match lazy true (KChar false) (FInt true) 0 w_multibyte with
   | ROk t => t_info t = [(nX, IS (SChar 233))]%N
   | _ => False
   end /\ is_err (eager (KChar false) (FInt true) 0 w_multibyte) = true.
@@ -1277,11 +1289,11 @@ Print Assumptions c10_lazy_info_character_multibyte_read.
 Theorem c10_lazy_agree_excludes_nonascii_characters :
   agree (KChar true) (FInt true) 0 w_nonascii_chars = false /\
   is_ok (eager (KChar true) (FInt true) 0 w_nonascii_chars) = true /\
-  match lazy true (KChar true) (FInt true) w_nonascii_chars with
+  match lazy true (KChar true) (FInt true) 0 w_nonascii_chars with
   | ROk t => t_info t = [(nX, IS (SChars [Some 233]))]%N
   | _ => False
   end /\
-  ~ same true (lazy true (KChar true) (FInt true) w_nonascii_chars) (eager (KChar true) (FInt true) 0 w_nonascii_chars).
+  ~ same true (lazy true (KChar true) (FInt true) 0 w_nonascii_chars) (eager (KChar true) (FInt true) 0 w_nonascii_chars).
 Proof. exact lazy_agree_excludes_nonascii_characters. Qed.
 Print Assumptions c10_lazy_agree_excludes_nonascii_characters.
 
@@ -1290,7 +1302,6 @@ Print Assumptions c10_lazy_agree_excludes_nonascii_characters.
      site_lazy_only   rlen < 0 (the lazy path never looks at the span), or a FILTER value that is an
                       integer vector of length 0 (read_string_map_indices rejects it, Filters::iter
                       returns no filter);
-     hs < n_sample    n_sample above the header's sample count (the lazy path never consults the names);
      info_lazy_only   the same INFO key twice (read_info: DuplicateKey; the lazy path collects into an
                       IndexMap and keeps the later value), or an INFO Character (Number=1) that is one
                       character of several bytes (rejected by the eager MODEL only: a Character of
@@ -1302,18 +1313,17 @@ Print Assumptions c10_lazy_agree_excludes_nonascii_characters.
                       n_sample = 0; or a GT cell with a byte of 0x80, 0x82..0xff before its end
                       (parse_genotype_values: InvalidGenotype; the lazy Genotype::iter stops at a byte of
                       0x80..0x87 and takes every other byte for an allele). *)
-Theorem c10_lazy_only_spelled_out : forall strings ik fk hs bs,
-  lazy_only strings ik fk hs bs =
+Theorem c10_lazy_only_spelled_out : forall strings ik fk bs,
+  lazy_only strings ik fk bs =
   match dec_frame bs with
   | Some (sb, ib, _) =>
     site_lazy_only sb
     || match lz_index sb, lz_sample_count sb, lz_format_count sb, lz_u16 16 sb with
        | ROk bd, ROk nsz, ROk nf, ROk ni =>
-         (hs <? nsz)
-         || match lz_slice (b_filters_end bd) (length sb) sb with
-            | ROk info_bytes => info_lazy_only strings ik (Z.to_nat ni) info_bytes
-            | _ => false
-            end
+         match lz_slice (b_filters_end bd) (length sb) sb with
+         | ROk info_bytes => info_lazy_only strings ik (Z.to_nat ni) info_bytes
+         | _ => false
+         end
          || fmt_lazy_only strings fk (Z.to_nat nsz) (Z.to_nat nf) ib
        | _, _, _, _ => false
        end
@@ -1368,8 +1378,8 @@ Print Assumptions c10_lazy_only_parts.
    accepts is accepted by read_record_buf, with the same RecordBuf *)
 Theorem c10_lazy_converse : forall v44 strings contigs ik fk hs bs t',
   byte_list bs ->
-  lazy_read v44 strings contigs ik fk bs = ROk t' ->
-  lazy_only strings ik fk hs bs = false ->
+  lazy_read_hdr v44 strings contigs ik fk hs bs = ROk t' ->
+  lazy_only strings ik fk bs = false ->
   lazy_agree strings contigs ik fk hs bs = true ->
   exists t, dec_record_typed strings contigs ik fk hs bs = ROk t /\ trec_norm v44 t' = trec_norm v44 t.
 Proof. exact lazy_converse. Qed.
@@ -1378,8 +1388,8 @@ Print Assumptions c10_lazy_converse.
 (* acceptance alone needs no ASCII premise *)
 Theorem c10_lazy_accepts_eager_accepts : forall v44 strings contigs ik fk hs bs t',
   byte_list bs ->
-  lazy_read v44 strings contigs ik fk bs = ROk t' ->
-  lazy_only strings ik fk hs bs = false ->
+  lazy_read_hdr v44 strings contigs ik fk hs bs = ROk t' ->
+  lazy_only strings ik fk bs = false ->
   exists t, dec_record_typed strings contigs ik fk hs bs = ROk t.
 Proof. exact lazy_accepts_eager_accepts. Qed.
 Print Assumptions c10_lazy_accepts_eager_accepts.
@@ -1387,10 +1397,10 @@ Print Assumptions c10_lazy_accepts_eager_accepts.
 (* both directions: outside the two classes the two readers accept the same records and reject the same
    records *)
 Theorem c10_lazy_iff_eager : forall v44 strings contigs ik fk hs bs,
-  byte_list bs -> lazy_only strings ik fk hs bs = false -> lazy_agree strings contigs ik fk hs bs = true ->
-  ((exists t', lazy_read v44 strings contigs ik fk bs = ROk t') <->
+  byte_list bs -> lazy_only strings ik fk bs = false -> lazy_agree strings contigs ik fk hs bs = true ->
+  ((exists t', lazy_read_hdr v44 strings contigs ik fk hs bs = ROk t') <->
    (exists t, dec_record_typed strings contigs ik fk hs bs = ROk t)) /\
-  (lazy_read v44 strings contigs ik fk bs = RErr <-> dec_record_typed strings contigs ik fk hs bs = RErr).
+  (lazy_read_hdr v44 strings contigs ik fk hs bs = RErr <-> dec_record_typed strings contigs ik fk hs bs = RErr).
 Proof. exact lazy_iff_eager. Qed.
 Print Assumptions c10_lazy_iff_eager.
 
@@ -1399,7 +1409,7 @@ Print Assumptions c10_lazy_iff_eager.
    path accepts, and nowhere else *)
 Theorem c10_lazy_only_eager_rejects : forall strings contigs ik fk hs bs,
   byte_list bs -> lazy_agree strings contigs ik fk hs bs = true ->
-  lazy_only strings ik fk hs bs = true ->
+  lazy_only strings ik fk bs = true ->
   dec_record_typed strings contigs ik fk hs bs = RErr.
 Proof. exact lazy_only_eager_rejects. Qed.
 Print Assumptions c10_lazy_only_eager_rejects.
@@ -1427,32 +1437,43 @@ Print Assumptions c10_lazy_series_converse.
 
 (* the class is inhabited in each of its parts, by records the lazy path accepts and the eager reader
    rejects.  The repairs did not touch these; each is a case of corpus/C10/lazy.case, on which the real
-   lazy path returns the model's RecordBuf and the real read_record_buf returns an error: n_sample above
-   the header's sample count; a zero-length FILTER vector; rlen < 0; the same INFO key twice; a GT cell
+   lazy path returns the model's RecordBuf and the real read_record_buf returns an error: a zero-length
+   FILTER vector; rlen < 0; the same INFO key twice; a GT cell
    that starts with the missing Int8 (the lazy genotype has NO alleles); n_sample = 0 with a series whose
    key has no FORMAT definition. *)
 Theorem c10_lazy_accepts_more_than_eager :
-  (is_err (eager KFlag (FInt true) 0 w_more_samples) = true /\ is_ok (lazy true KFlag (FInt true) w_more_samples) = true) /\
-  (is_err (eager KFlag (FInt true) 0 w_filter_len0) = true /\ is_ok (lazy true KFlag (FInt true) w_filter_len0) = true) /\
-  (is_err (eager KFlag (FInt true) 0 w_neg_rlen) = true /\ is_ok (lazy true KFlag (FInt true) w_neg_rlen) = true) /\
+  (is_err (eager KFlag (FInt true) 0 w_filter_len0) = true /\ is_ok (lazy true KFlag (FInt true) 0 w_filter_len0) = true) /\
+  (is_err (eager KFlag (FInt true) 0 w_neg_rlen) = true /\ is_ok (lazy true KFlag (FInt true) 0 w_neg_rlen) = true) /\
   (is_err (eager KFlag (FInt true) 0 w_dup_info) = true /\
-   match lazy true KFlag (FInt true) w_dup_info with ROk t => t_info t = [(nX, IFlagV)] | _ => False end) /\
+   match lazy true KFlag (FInt true) 0 w_dup_info with ROk t => t_info t = [(nX, IFlagV)] | _ => False end) /\
   (is_err (eager KFlag (FInt true) 1 w_gt_missing_byte) = true /\
-   match lazy true KFlag (FInt true) w_gt_missing_byte with ROk t => t_rows t = [[CG (Some [])]] | _ => False end) /\
+   match lazy true KFlag (FInt true) 1 w_gt_missing_byte with ROk t => t_rows t = [[CG (Some [])]] | _ => False end) /\
   (is_err (eager KFlag (FInt true) 0 w_no_samples_undefined_key) = true /\
-   match lazy true KFlag (FInt true) w_no_samples_undefined_key with ROk t => t_keys t = [nX] /\ t_rows t = [] | _ => False end).
+   match lazy true KFlag (FInt true) 0 w_no_samples_undefined_key with ROk t => t_keys t = [nX] /\ t_rows t = [] | _ => False end).
 Proof.
-  exact (conj lazy_accepts_sample_count_eager_rejects (conj lazy_accepts_empty_filter_vector_eager_rejects
+  exact (conj lazy_accepts_empty_filter_vector_eager_rejects
         (conj lazy_accepts_negative_rlen_eager_rejects (conj lazy_accepts_duplicate_info_key_eager_rejects
-        (conj lazy_accepts_gt_sentinel_eager_rejects lazy_accepts_undefined_key_without_samples_eager_rejects))))).
+        (conj lazy_accepts_gt_sentinel_eager_rejects lazy_accepts_undefined_key_without_samples_eager_rejects)))).
 Qed.
 Print Assumptions c10_lazy_accepts_more_than_eager.
 
+(* n_sample above the header's sample count was a part of the class until 30014e8: the lazy path built
+   n_sample rows whatever the header says.  Now both readers reject such a record (and it is outside
+   lazy_only); under a header that names enough samples both accept it; the conversion without the
+   check still accepts it *)
+Theorem c10_lazy_sample_count_above_header_both_reject :
+  is_err (eager KFlag (FInt true) 0 w_more_samples) = true /\ is_err (lazy true KFlag (FInt true) 0 w_more_samples) = true /\
+  is_err (lazy true KFlag (FInt true) 1 w_more_samples) = true /\
+  agrees true KFlag (FInt true) 2 w_more_samples /\
+  is_ok (lazy_read true w_strings w_contigs (w_ik KFlag) (w_fk (FInt true)) w_more_samples) = true.
+Proof. exact lazy_sample_count_above_header_both_reject. Qed.
+Print Assumptions c10_lazy_sample_count_above_header_both_reject.
+
 Theorem c10_lazy_only_witnesses :
-  only KFlag (FInt true) 0 w_more_samples = true /\ only KFlag (FInt true) 0 w_filter_len0 = true /\
-  only KFlag (FInt true) 0 w_neg_rlen = true /\ only KFlag (FInt true) 0 w_dup_info = true /\
-  only KFlag (FInt true) 1 w_gt_missing_byte = true /\ only KFlag (FInt true) 0 w_no_samples_undefined_key = true /\
-  only (KChar false) (FInt true) 0 w_multibyte = true.
+  only KFlag (FInt true) w_more_samples = false /\ only KFlag (FInt true) w_filter_len0 = true /\
+  only KFlag (FInt true) w_neg_rlen = true /\ only KFlag (FInt true) w_dup_info = true /\
+  only KFlag (FInt true) w_gt_missing_byte = true /\ only KFlag (FInt true) w_no_samples_undefined_key = true /\
+  only (KChar false) (FInt true) w_multibyte = true.
 Proof. exact lazy_only_witnesses. Qed.
 Print Assumptions c10_lazy_only_witnesses.
 
@@ -1462,14 +1483,14 @@ Print Assumptions c10_lazy_only_witnesses.
    phasing), so the normal form is needed *)
 Example c10_lazy_eq_eager_example :
   agree (KStr true) (FStr false) 2 w_good = true /\ is_ok (eager (KStr true) (FStr false) 2 w_good) = true /\
-  same false (lazy false (KStr true) (FStr false) w_good) (eager (KStr true) (FStr false) 2 w_good) /\
-  lazy false (KStr true) (FStr false) w_good <> eager (KStr true) (FStr false) 2 w_good.
+  same false (lazy false (KStr true) (FStr false) 2 w_good) (eager (KStr true) (FStr false) 2 w_good) /\
+  lazy false (KStr true) (FStr false) 2 w_good <> eager (KStr true) (FStr false) 2 w_good.
 Proof. exact lazy_agree_nonvacuous. Qed.
 
 (* ... and it is outside lazy_only, inside lazy_agree and accepted by the lazy path: the premises of the
    converse are satisfiable *)
 Example c10_lazy_converse_example :
-  only (KStr true) (FStr false) 2 w_good = false /\ agree (KStr true) (FStr false) 2 w_good = true /\
-  is_ok (lazy false (KStr true) (FStr false) w_good) = true.
+  only (KStr true) (FStr false) w_good = false /\ agree (KStr true) (FStr false) 2 w_good = true /\
+  is_ok (lazy false (KStr true) (FStr false) 2 w_good) = true.
 Proof. exact lazy_converse_nonvacuous. Qed.
 (* ==== end lazy ==== *)
